@@ -151,6 +151,16 @@ def run_property(prop, tier, seed, only_fn=None, verbose=False):
         keys = [k for k in keys if k[1] == only_fn]
     timeout_ms = 10000 if tier == 'quick' else 60000
     confirm = tier == 'thorough'
+    if not confirm:
+        # properties claimed at level `proof`: every unsat is confirmed by a second solver in the quick tier as well
+        # (z3 5.1 is not reliable enough on sequence formulas to stand alone behind a proof claim, DESIGN 0.6)
+        try:
+            with open(os.path.join(ROOT, 'MANIFEST.json')) as f_:
+                for ch_ in json.load(f_).get('checks', []):
+                    if ch_['property_id'] == prop and ch_['level_claimed']['category'] == 'proof':
+                        confirm = True
+        except Exception:
+            pass
     ctx = multiprocessing.get_context('fork')
     done = queue.Queue()
     fres = {k: {'key': k, 'jobs': [], 'problems': [], 'source': None, 'stats': {'paths': 0}, 'assumed': set(),
@@ -491,6 +501,8 @@ def summarise(prop, tier, seed, fres, jobs, by_id, wall, extra_bounded=None):
         'functions_under_contract': functions,
         'inlined_callees': sorted(inlined),
         'discharged_by_backend': by_solver,
+        'unsat_confirmed_by_second_solver': sum(1 for o in by_id.values() if (o.get('confirm') or (None, None))[1] == 'unsat'),
+        'unsat_second_solver_undecided': sum(1 for o in by_id.values() if o.get('confirm') and o['confirm'][1] not in ('unsat', 'sat')),
         'unsat_answers_asked_twice': sum(1 for o in by_id.values() if any('/again' in str(t[0]) for t in o.get('tried', []))),
         'unsat_answers_not_repeated': sum(1 for o in by_id.values()
                                           if any('/again' in str(t[0]) and t[1] != 'unsat' for t in o.get('tried', []))),
